@@ -55,15 +55,12 @@ Definition zmem (x : Z) (l : list Z) : bool := existsb (Z.eqb x) l.
 Definition cf_contains (cf : cfilter) (raw : bytes) : result bool :=
   h <- cf_compute_hash cf raw ;; Ok (zmem h (cf_hashes cf)).
 
-(* serialize(): serialize_gcs(sorted(list(self.hashes))) — hashes is a SET, so equal values
-   are written once and N becomes the number of distinct values; hash() = hash256(serialize()) *)
-Fixpoint dedup_sorted (l : list Z) : list Z :=
-  match l with
-  | a :: ((b :: _) as r) => if a =? b then dedup_sorted r else a :: dedup_sorted r
-  | _ => l
-  end.
-Definition cf_serialize (cf : cfilter) : result bytes :=
-  serialize_gcs (dedup_sorted (zsort (cf_hashes cf))).
+(* __init__ also keeps self.items = sorted(hashes), every decoded value, duplicates included;
+   serialize() = serialize_gcs(self.items); hash() = hash256(serialize()) *)
+Definition cf_items (cf : cfilter) : list Z := zsort (cf_hashes cf).
+Definition cf_serialize (cf : cfilter) : result bytes := serialize_gcs (cf_items cf).
+Definition cf_hash (hash256 : bytes -> bytes) (cf : cfilter) : result bytes :=
+  b <- cf_serialize cf ;; Ok (hash256 b).
 
 (* build, parse, query *)
 Definition cf_build_query (key : bytes) (items : list bytes) (raw : bytes) : result bool :=
